@@ -40,7 +40,9 @@ CONSTANTS
     SessionLoss,  \* TRUE: a reconnect may come with Session Present = 0
     LossyWrites,
     ClearAfterRequeue,
-    KeepOldWaiter
+    KeepOldWaiter,
+    SilentLoss    \* TRUE: a write may be reported successful although its bytes never reach the broker, the connection
+                  \* being lost right afterwards (send buffer); TLC then finds the recorded finding F16
 
 Msgs == 1..NMsgs
 Pids == 1..NMsgs
@@ -59,14 +61,15 @@ VARIABLES
     stored,   \* per message: number of times it was put into the receive channel
     faults,
     relUnanswered,  \* ghost: identifiers whose PUBREL was delivered to the client on this connection and not yet answered
+    foreign,        \* ghost: a PUBREL was taken by the operation of ANOTHER message than the one the broker releases
     hist            \* the environment's choices so far (model-guided scenarios, tools/l3.py); hidden by VIEW NoHist
 
-vars == <<bst, pid, up, b2c, wr, dlv, wq, waiters, rearm, fast, stored, faults, relUnanswered, hist>>
-NoHist == <<bst, pid, up, b2c, wr, dlv, wq, waiters, rearm, fast, stored, faults, relUnanswered>>
+vars == <<bst, pid, up, b2c, wr, dlv, wq, waiters, rearm, fast, stored, faults, relUnanswered, foreign, hist>>
+NoHist == <<bst, pid, up, b2c, wr, dlv, wq, waiters, rearm, fast, stored, faults, relUnanswered, foreign>>
 
 Init ==
     /\ bst = [m \in Msgs |-> "new"] /\ pid = [m \in Msgs |-> 0] /\ up = TRUE /\ b2c = << >> /\ wr = << >> /\ dlv = FALSE /\ wq = << >>
-    /\ waiters = {} /\ rearm = {} /\ fast = {} /\ stored = [m \in Msgs |-> 0] /\ faults = 0 /\ relUnanswered = {} /\ hist = << >>
+    /\ waiters = {} /\ rearm = {} /\ fast = {} /\ stored = [m \in Msgs |-> 0] /\ faults = 0 /\ relUnanswered = {} /\ foreign = FALSE /\ hist = << >>
 
 InFlight(st) == {m \in Msgs : st[m] \in {"sent", "rel"}}
 \* the broker's message that currently owns identifier p (0: none)
@@ -98,14 +101,15 @@ ClientReads ==
        /\ IF k.t = "PUBLISH" THEN
               \* publish_rec_op::perform: a fresh operation per received PUBLISH
               /\ Send([t |-> IF QosOf[k.m] = 1 THEN "PUBACK" ELSE "PUBREC", m |-> k.m, p |-> k.p])
-              /\ UNCHANGED <<waiters, stored, relUnanswered>>
+              /\ UNCHANGED <<waiters, stored, relUnanswered, foreign>>
           ELSE \* PUBREL: replies::dispatch
               /\ relUnanswered' = relUnanswered \cup {k.p}
               /\ IF \E w \in waiters : w.p = k.p
                    THEN LET w == CHOOSE w \in waiters : w.p = k.p IN
                         /\ waiters' = waiters \ {w}
                         /\ Send([t |-> "PUBCOMP", m |-> w.m, p |-> k.p])      \* on_pubrel of THE WAITING operation -> send_pubcomp
-                   ELSE /\ fast' = fast \cup {k.p} /\ UNCHANGED <<waiters, wr, wq>>
+                        /\ foreign' = (foreign \/ w.m # k.m)
+                   ELSE /\ fast' = fast \cup {k.p} /\ UNCHANGED <<waiters, wr, wq, foreign>>
               /\ UNCHANGED stored
     /\ UNCHANGED <<bst, pid, up, faults, dlv, rearm>>
     /\ hist' = Append(hist, [op |-> "read"])
@@ -128,23 +132,39 @@ Deliver ==
        /\ b2c' = IF k.t = "PUBREC" /\ o # 0 /\ bst[o] = "sent" /\ QosOf[o] = 2 THEN Append(b2c, [t |-> "PUBREL", m |-> o, p |-> k.p]) ELSE b2c
        /\ relUnanswered' = IF k.t = "PUBCOMP" THEN relUnanswered \ {k.p} ELSE relUnanswered
     /\ dlv' = TRUE
-    /\ UNCHANGED <<pid, up, wr, wq, waiters, rearm, fast, stored, faults>>
+    /\ UNCHANGED <<pid, up, wr, wq, waiters, rearm, fast, stored, faults, foreign>>
     /\ hist' = Append(hist, [op |-> "wdeliver"])
 
-\* the write completion handler runs: the operation continues, then the next write starts
+\* what the write completion handler does: the operation continues, then the next write starts
+AfterWrite ==
+    LET k == wr[1]
+        hitFast == k.t = "PUBREC" /\ k.p \in fast                                         \* fast reply consumed
+        w1 == IF k.t = "PUBREC" /\ ~hitFast THEN Register(waiters, k.p, k.m) ELSE waiters   \* wait_pubrel
+        q1 == IF hitFast THEN Append(wq, [t |-> "PUBCOMP", m |-> k.m, p |-> k.p]) ELSE wq
+        s == StartWrites(q1, << >>, IF hitFast THEN fast \ {k.p} ELSE fast)
+    IN [waiters |-> w1,
+        stored |-> IF k.t \in {"PUBACK", "PUBCOMP"} THEN [stored EXCEPT ![k.m] = @ + 1] ELSE stored,   \* complete(): channel_store
+        wr |-> s.wr, wq |-> s.wq, fast |-> s.fast]
+
 WriteOk ==
     /\ up /\ wr # << >> /\ dlv
-    /\ LET k == wr[1]
-           hitFast == k.t = "PUBREC" /\ k.p \in fast                                         \* fast reply consumed
-           w1 == IF k.t = "PUBREC" /\ ~hitFast THEN Register(waiters, k.p, k.m) ELSE waiters   \* wait_pubrel
-           q1 == IF hitFast THEN Append(wq, [t |-> "PUBCOMP", m |-> k.m, p |-> k.p]) ELSE wq
-           s == StartWrites(q1, << >>, IF hitFast THEN fast \ {k.p} ELSE fast)
-       IN /\ waiters' = w1
-          /\ stored' = IF k.t \in {"PUBACK", "PUBCOMP"} THEN [stored EXCEPT ![k.m] = @ + 1] ELSE stored   \* complete(): channel_store
-          /\ wr' = s.wr /\ wq' = s.wq /\ fast' = s.fast
+    /\ LET a == AfterWrite IN
+       waiters' = a.waiters /\ stored' = a.stored /\ wr' = a.wr /\ wq' = a.wq /\ fast' = a.fast
     /\ dlv' = FALSE
-    /\ UNCHANGED <<bst, pid, b2c, relUnanswered, up, faults, rearm>>
+    /\ UNCHANGED <<bst, pid, b2c, relUnanswered, up, faults, rearm, foreign>>
     /\ hist' = Append(hist, [op |-> "wend"])
+
+\* the write is reported successful, but its bytes never leave the machine: the connection is lost right afterwards
+WriteOkLost ==
+    /\ SilentLoss /\ up /\ wr # << >> /\ ~dlv /\ faults < MaxFaults
+    /\ LET a == AfterWrite
+           all == a.wr \o a.wq
+       IN /\ waiters' = a.waiters /\ stored' = a.stored
+          /\ rearm' = rearm \cup {[p |-> all[i].p, m |-> all[i].m] : i \in {j \in DOMAIN all : all[j].t = "PUBCOMP"}}
+    /\ up' = FALSE /\ b2c' = << >> /\ wr' = << >> /\ dlv' = FALSE /\ wq' = << >> /\ fast' = {}
+    /\ faults' = faults + 1 /\ relUnanswered' = {}
+    /\ UNCHANGED <<bst, pid, foreign>>
+    /\ hist' = Append(hist, [op |-> "wlost"])
 
 \* the connection is lost.  The write in progress fails (delivered = whether its bytes reached the broker);
 \* everything queued is told try_again by resend() after the reconnect.
@@ -158,7 +178,7 @@ Fault(delivered) ==
        IN rearm' = rearm \cup {[p |-> all[i].p, m |-> all[i].m] : i \in {j \in DOMAIN all : all[j].t = "PUBCOMP"}}
     /\ up' = FALSE /\ b2c' = << >> /\ wr' = << >> /\ dlv' = FALSE /\ wq' = << >> /\ fast' = {}
     /\ faults' = faults + 1 /\ relUnanswered' = {}
-    /\ UNCHANGED <<bst, pid, stored, waiters>>
+    /\ UNCHANGED <<bst, pid, stored, waiters, foreign>>
     /\ hist' = Append(hist, [op |-> "fault", dlv |-> delivered])
 
 RECURSIVE RegisterAll(_, _)
@@ -183,7 +203,7 @@ Reconnect(sp) ==
               /\ bst' = [m \in Msgs |-> IF bst[m] \in {"sent", "rel"} THEN "lost" ELSE bst[m]]
               /\ waiters' = IF ClearAfterRequeue THEN {} ELSE RegisterAll({}, rearm)
     /\ rearm' = {}
-    /\ UNCHANGED <<pid, wr, dlv, wq, fast, stored, faults, relUnanswered>>
+    /\ UNCHANGED <<pid, wr, dlv, wq, fast, stored, faults, relUnanswered, foreign>>
     /\ hist' = Append(hist, [op |-> "reconnect", sp |-> sp])
 
 \* the broker sends the next message (in order), with the lowest identifier it is not using
@@ -194,11 +214,11 @@ BrokerPublish(m) ==
        IN /\ pid' = [pid EXCEPT ![m] = p]
           /\ b2c' = Append(b2c, [t |-> "PUBLISH", m |-> m, p |-> p])
     /\ bst' = [bst EXCEPT ![m] = "sent"]
-    /\ UNCHANGED <<up, wr, dlv, wq, waiters, rearm, fast, stored, faults, relUnanswered>>
+    /\ UNCHANGED <<up, wr, dlv, wq, waiters, rearm, fast, stored, faults, relUnanswered, foreign>>
     /\ hist' = Append(hist, [op |-> "bpub", m |-> m])
 
 Next ==
-    \/ ClientReads \/ Deliver \/ WriteOk \/ Fault(FALSE) \/ Fault(TRUE)
+    \/ ClientReads \/ Deliver \/ WriteOk \/ WriteOkLost \/ Fault(FALSE) \/ Fault(TRUE)
     \/ Reconnect(1) \/ Reconnect(0)
     \/ \E m \in Msgs : BrokerPublish(m)
 
@@ -214,7 +234,7 @@ CompletedIsDelivered ==                                                         
 NoPubrelUnanswered == Quiet => relUnanswered = {} /\ \A m \in Msgs : bst[m] # "rel"      \* C04_c
 NothingStuck == Quiet => \A m \in Msgs : bst[m] \in {"done", "lost"}                      \* C04_a (every PUBLISH acknowledged)
 \* a QoS 2 message reaches the application only through its own exchange (C04_d / C04_e)
-OnlyOwnRelease == \A m \in Msgs : QosOf[m] = 2 /\ stored[m] > 0 => bst[m] \in {"rel", "done"}
+OnlyOwnRelease == ~foreign
 \* model-guided scenarios: every state prints the environment history that led to it (one per state under VIEW NoHist)
 EmitScript == PrintT("SCRIPT " \o ToJson(hist))
 =============================================================================
